@@ -531,7 +531,7 @@ def sig_first_gstar(W, P, pats, fl: int) -> bool:
 
 def sig_has_gstar_segment(W, P, pats, fl: int) -> bool:
     """some (expanded) pattern has a written globstar segment while GLOBSTAR/GLOBSTARLONG is on (together with the
-    implicit `**/` prefix of match() that makes two `**` groups: the trigger of KF-G3)"""
+    implicit `**/` prefix of match() that makes two `**` groups: the trigger of KF-G8; it was KF-G3's too, repaired)"""
     gs, gsl = bool(fl & P.GLOBSTAR), bool(fl & P.GLOBSTARLONG)
     if not (gs or gsl):
         return False
